@@ -2,7 +2,7 @@
 """Regenerates MANIFEST.json from the table below (kept in one place so the file stays valid)."""
 import json, os
 ROOT = os.path.dirname(os.path.abspath(__file__))
-HOOK_COMMITS = ["d44dd5f"]  # fix commits (unguarded): 4866329 (C06), 12c2b27 (C10/C09)
+HOOK_COMMITS = ["d44dd5f"]  # fix commits (unguarded) are listed in known_findings.jsonl
 BASELINE_OFF = ("cd /repo && go build ./... && go test -json -vet=off -count=1 -timeout 25m ./...")
 
 CHECKS = {}
@@ -33,6 +33,16 @@ add("C16", "exploration",
     "Generated histories of DECLARE/OPEN/FETCH (all positions, offsets incl. negative and out of range)/CLOSE/DISPOSE/WHILE IN/status expressions on two cursors, interleaved with INSERT/UPDATE/DELETE/COMMIT/ROLLBACK on the underlying table, run statement by statement next to a model {declared, open, snapshot at OPEN, admissible pointer set, fetched}; every fetched row, COUNT, IS OPEN, IS IN RANGE and documented error class is compared after each step.",
     "Trusted: the cursor model written from the manual; the snapshot is obtained by running the cursor's query as a plain SELECT right before/after OPEN; open outcomes (variables after an out-of-range fetch, CLOSE of a closed cursor) are accepted either way.",
     "stateful property-based testing (rapid, generated operation histories) against a reference model", "DESIGN.md §3 C16")
+
+add("C07", "exploration",
+    "Generated tables (numbers / datetimes / non-numeric text keys with NULLs and duplicates, 10% large enough for several workers) and ORDER BY key lists with directions and NULLS FIRST/LAST; oracle: output is a permutation of the input and every position holds a row of the tie group the reference order puts there; LIMIT/OFFSET/PERCENT/WITH TIES/FETCH are compared with the window computed over the reference order (exact when keys are unique, tie-group based otherwise).",
+    "Trusted: the reference comparator (internal/ref ladder + the manual's NULL placement). Open outcomes: negative limit/offset/percent (ordinary error or any sorted subset accepted, never a Fatal Error), PERCENT rounding (floor or ceiling).",
+    "property-based testing (rapid) with validity predicates (permutation + sortedness) and an exact reference cut", "DESIGN.md §3 C07")
+
+add("C17", "exploration",
+    "Generated tables (unique id, partition columns with NULLs and single-row partitions, order columns with ties, value column; 15% large with several workers) and one analytic function per case over generated PARTITION BY / ORDER BY / ROWS frames; a reference evaluator written from the manual computes each row's value (exact for rank family and explicit frames, membership/multiset where tie order is free); row count and other columns must be unchanged.",
+    "Trusted: internal/ref/c17_analytic.go; open readings accepted either way (PERCENT_RANK of a one-row partition, FIRST/LAST/NTH_VALUE with ORDER BY but no frame, LAG/LEAD IGNORE NULLS, rank family without ORDER BY). LISTAGG/JSON_AGG DISTINCT not generated.",
+    "property-based testing (rapid) against a reference evaluator", "DESIGN.md §3 C17")
 
 NOT_YET = {}
 
